@@ -66,6 +66,7 @@ type lexer struct {
 	env   *ExecEnv
 	r     io.RuneScanner
 	n     int
+	skip  int // nesting depth of operands which are not evaluated
 	token chan interface{}
 	done  chan struct{}
 
